@@ -105,6 +105,7 @@ def bounded_flows(reg, tier, seed):
                 raise RuntimeError("addon failure after take")
 
         def handle_http_request(self, session_manager, flow):
+            self.last = flow
             self._act(flow)
 
         def handle_http_response(self, session_manager, flow):
@@ -311,6 +312,17 @@ def bounded_flows(reg, tier, seed):
                         pass
                     res["released"] = waiter.done() and not mf.intercepted
                     res["url"] = mf.request.url
+                    hf = getattr(a, "last", None)
+                    if kind == "request" and res["released"] and hf is not None and a.b != "raise":
+                        # the main process pre-empts the request it has already released (it races the server with a response of
+                        # its own): the response reaches the flow the HTTP proxy holds
+                        hf.response = mitmproxy.http.Response.make(418, b"preempted", {})
+                        hf.preempt()
+                        for _w in range(400):
+                            await asyncio.sleep(0.005)
+                            if mf.response is not None:
+                                break
+                        res["preempted"] = mf.response is not None and mf.response.status_code == 418
                     h.flow_context.shutdown_signal.set()
                     await asyncio.wait_for(pump, 10.0)
                     waiter.cancel()
@@ -329,6 +341,8 @@ def bounded_flows(reg, tier, seed):
                 fail("flows/end-to-end", f"main process handed the event back {res.get('handed_back')} times", inp)
             elif not res.get("released"):
                 fail("flows/end-to-end", "the event was handed back but the flow held by the HTTP proxy was never released", inp)
+            elif res.get("preempted") is False:
+                fail("flows/end-to-end", "a response the main process pre-empted the released request with never reached the flow the HTTP proxy holds", inp)
             elif beh == "rewrite_url" and kind == "request" and "rewritten" not in res.get("url", ""):
                 fail("flows/end-to-end", f"the rewritten request did not reach the held flow ({res.get('url')})", inp)
     finally:
@@ -567,8 +581,18 @@ def bounded_eq(reg, tier, seed):
             trace = []
             announced = False
             for step in range(rng.randrange(3, 14)):
-                op = rng.choice(["poll", "poll", "poll", "inject", "repoll", "poll_502", "poll_region"])
+                op = rng.choice(["poll", "poll", "poll", "inject", "repoll", "poll_502", "poll_region", "reannounce"])
                 evals += 1
+                if op == "reannounce":
+                    # the region is announced again (by an event on some other region's queue) with the same or a new seed capability
+                    # while the viewer keeps polling the queue it has: nothing queued or cached for that queue is lost by that
+                    new_seed = rng.choice([region.cap_urls.get("Seed"), f"https://sim.example/seed/{run}-{step}"])
+                    try:
+                        h.session.register_region(region.circuit_addr, seed_url=new_seed)
+                    except Exception as e:  # noqa
+                        fail("eq/inject", f"re-announcing the region raised {type(e).__name__}: {e}", {"trace": trace[-6:]})
+                    trace.append(f"reannounce seed={'same' if new_seed == region.cap_urls.get('Seed') else 'new'}")
+                    continue
                 if op == "inject":
                     inj += 1
                     ev = {"message": "InjectedThing", "body": {"inj": inj}}
